@@ -188,3 +188,14 @@ Proof. now rewrite machine_ckif_spins_eq, ckif_spins_gen_eq. Qed.
 Corollary machine_eff_deadline_gen fuel s x :
   eff_deadline_from fuel s x XInf = gen_eff_deadline (chain_of fuel s x).
 Proof. now rewrite machine_eff_deadline_eq, effective_deadline_gen_eq. Qed.
+
+Corollary machine_restart_from_gen fuel s x :
+  restart_from fuel s x =
+  match (match gen_restart_target (chain_of fuel s x) with
+         | Some i => nth_error (sids_of fuel s x) i
+         | None => None
+         end) with
+  | Some c => deliver_top s c
+  | None => s
+  end.
+Proof. rewrite machine_restart_from_eq, restart_target_gen_eq. reflexivity. Qed.
